@@ -122,8 +122,8 @@ func init() {
 	})
 }
 
-var c15MainFaults = []string{"good", "missing", "directory", "empty", "malformed", "wrong-shape", "binary", "unreadable", "unset"}
-var c15PersonalFaults = []string{"absent", "good", "empty", "malformed", "directory", "unreadable", "unset"}
+var c15MainFaults = []string{"good", "missing", "directory", "empty", "malformed", "wrong-shape", "binary", "unreadable", "unset", "symlink", "dangling"}
+var c15PersonalFaults = []string{"absent", "good", "empty", "malformed", "directory", "unreadable", "unset", "symlink", "dangling"}
 var c15BackupFaults = []string{"absent", "good", "malformed", "empty"}
 
 var c15MainCmds = []database.Command{
@@ -142,6 +142,13 @@ func c15Materialise(dir, name, fault string, cmds []database.Command) string {
 	case "missing", "absent", "unset":
 	case "good":
 		os.WriteFile(p, gen.EmitYAML(cmds), 0o644)
+	case "symlink": // a symbolic link to a good file kept elsewhere (package managers, dotfile managers)
+		real := filepath.Join(dir, "store", name+".v2")
+		os.MkdirAll(filepath.Dir(real), 0o755)
+		os.WriteFile(real, gen.EmitYAML(cmds), 0o644)
+		os.Symlink(real, p)
+	case "dangling": // a symbolic link whose target is gone: a file that is not there
+		os.Symlink(filepath.Join(dir, "store", "gone-"+name), p)
 	case "directory":
 		os.Mkdir(p, 0o755)
 	case "empty":
@@ -161,11 +168,17 @@ func c15Materialise(dir, name, fault string, cmds []database.Command) string {
 
 func c15Judge(mainF, persF, backF string, cfg c15Config, out c15Outcome) string {
 	where := fmt.Sprintf("main=%s personal=%s backup=%s config=%+v", mainF, persF, backF, cfg)
-	if mainF == "unset" {
-		mainF = "missing" // an empty path names no file: judged like a file that is not there
+	switch mainF {
+	case "unset", "dangling":
+		mainF = "missing" // an empty path or a dangling link names no file: judged like a file that is not there
+	case "symlink":
+		mainF = "good"
 	}
-	if persF == "unset" {
+	switch persF {
+	case "unset", "dangling":
 		persF = "absent"
+	case "symlink":
+		persF = "good"
 	}
 	if out.Panic != "" {
 		return "loading crashed or hung: " + out.Panic + " (" + where + ")"
